@@ -6,8 +6,13 @@ closed-form estimators, and — for the iterative Gumbel estimators — of the v
 (captured by wrapping the solvers) with the model's estimating equations / residual vectors.
 Search: equivariance, moment exactness, recovery of exact large samples (measurement), minima = mirrored maxima; the same
 clauses on samples given in other representations (integer dtypes, lists, views) and after every step of a history of fits
-(re-used GumbelMin object, sequences of class-level / module-level calls).
+(re-used GumbelMin object, sequences of class-level / module-level calls); samples laid out as two-dimensional arrays
+(row (1, n), column (n, 1), row / column views of a table of extremes); the application-level wrappers
+`qats.app.funcs.calculate_gumbel_fit` / `calculate_stats` on containers of time series with zero, large positive and large
+negative mean level (mirror of minima / maxima, equivariance, repeated calls on one container).
 """
+import contextlib
+import io
 import math
 
 import numpy as np
@@ -23,7 +28,10 @@ RULE = ("seeded samples (n in 8..400) drawn from Weibull / Gumbel / GumbelMin wi
         "the same samples in other representations (integer-valued in units of scale/8 as int64/int32/int16 arrays and lists of "
         "Python ints, lists / tuples of floats, non-contiguous views) through the module-level and the class entry; histories "
         "of 7-10 fits (one GumbelMin object: sample via constructor / fit(data=) / .data assignment / kept, methods mixed; "
-        "sequences of Weibull.fit / Gumbel.fit / module calls) with the clauses evaluated after every step; corpus cases first; "
+        "sequences of Weibull.fit / Gumbel.fit / module calls) with the clauses evaluated after every step; two-dimensional "
+        "layouts (row (1,n), column (n,1), row / column views of a 3-row / 3-column table) with flat-equality, equivariance and "
+        "mirror clauses; containers of 2-12 time series (noise around a mean level of 0, +-5, +-60, +-2000 standard deviations, "
+        "optional time window) through app.funcs.calculate_gumbel_fit / calculate_stats with minima=False/True; corpus cases first; "
         "non-trivial = every sample (all have distinct values); distinct by (distribution, parameters, n, seed)")
 
 
@@ -73,7 +81,8 @@ def fit_via(Q, kind, name, data, entry):
             return tuple(float(v) for v in getattr(Q["mod"][kind], name)(data))
         if kind == "gm":
             g = Q["cls"]["gm"]()
-            g.fit(data=data, method=name)
+            with contextlib.redirect_stdout(io.StringIO()):    # GumbelMin.fit prints when the estimator raises TypeError
+                g.fit(data=data, method=name)
             return float(g.location), float(g.scale)
         o = Q["cls"][kind].fit(data, method=name)
         p = tuple(float(v) for v in o.params)
@@ -117,19 +126,43 @@ def container_of(lab, v):
         buf = np.zeros(2 * len(v))
         buf[::2] = v
         return buf[::2]
+    if lab == "row-2d":                                            # one row kept two-dimensional, shape (1, n)
+        return np.array(v, dtype=float)[None, :]
+    if lab == "column-2d":                                         # shape (n, 1)
+        return np.array(v, dtype=float)[:, None]
+    if lab == "table-row-view":                                    # row of a table of extremes (one row per quantity), a view
+        w = np.array(v, dtype=float)
+        return np.vstack([0.5 * w[::-1], w, w + 1.0])[1:2, :]
+    if lab == "table-column-view":                                 # column of a table (one column per quantity), strided view
+        w = np.array(v, dtype=float)
+        return np.column_stack([0.5 * w[::-1], w, w + 1.0])[:, 1:2]
     raise ValueError(lab)
 
 
+LAYOUTS_2D = ("row-2d", "column-2d", "table-row-view", "table-column-view")
+COLUMN_LAYOUTS = ("column-2d", "table-column-view")
+ORDER_STAT_METHODS = ("pwm", "pwm2", "lse")       # sort along the last axis: defined for samples laid out along the last axis only
+
+
+def negated(c):
+    return -c if isinstance(c, np.ndarray) else type(c)(-t for t in c)
+
+
 def eval_container(Q, inp):
-    """the sample given in another representation (integer dtype, list / tuple of Python numbers, non-contiguous view): the
-    fit equals the fit of the same values as a float64 array (x -> 1*x+0), and equivariance holds starting from that
-    representation.  Returns [(oracle, expected, observed)], None when the sample is outside the estimator's domain."""
+    """the sample given in another representation (integer dtype, list / tuple of Python numbers, non-contiguous view,
+    two-dimensional row / column): the fit equals the fit of the same values as a flat float64 array (x -> 1*x+0),
+    equivariance holds starting from that representation, and the minima fit of it is the mirror of the maxima fit of its
+    negation (same representation).  Returns [(oracle, expected, observed)], None when the sample is outside the
+    estimator's domain."""
     kind, name, lab, entry = inp["dist"], inp["method"], inp["container"], inp["entry"]
+    two_d = lab in LAYOUTS_2D
+    if lab in COLUMN_LAYOUTS and name in ORDER_STAT_METHODS:
+        return None                                # documented domain limit (see chk.assumptions)
     x = make_sample(Q, inp)
     v = np.round(x / inp["quantum"]) if inp.get("quantum") else x
     c = container_of(lab, v)
     try:
-        ref = fit_via(Q, kind, name, np.array(c, dtype=float), entry)      # same values, same order, contiguous float64
+        ref = fit_via(Q, kind, name, np.array(c, dtype=float).ravel(), entry)   # same values, same order, flat contiguous float64
     except Exception:
         return None
     if not all(math.isfinite(t) for t in ref):
@@ -138,6 +171,8 @@ def eval_container(Q, inp):
     try:
         got = fit_via(Q, kind, name, c, entry)
     except Exception as e:
+        if two_d:
+            return None                            # the estimator refuses two-dimensional samples: outside its domain
         return [("estimator must not raise on a valid sample (%s, given as %s)" % (name, lab), list(ref), type(e).__name__)]
     if not same_fit(kind, name, ref, got, tol):
         out.append(("fit(1*x+0) == fit(x): sample given as %s is fitted like the same values as float64 array (method %s, %s entry)"
@@ -152,6 +187,19 @@ def eval_container(Q, inp):
         exp = transformed(kind, name, got, a, b)
         if not same_fit(kind, name, exp, q, tol):
             out.append(("fit(a*x+b) == (a*loc+b, a*scale[, shape]) for method %s, x given as %s" % (name, lab), list(exp), list(q)))
+    if kind in ("gu", "gm") and name in ("msm", "lse", "mle"):
+        okind = "gu" if kind == "gm" else "gm"
+        try:
+            other = fit_via(Q, okind, name, negated(c), entry)
+        except Exception:
+            other = None
+        if other is not None and all(math.isfinite(t) for t in other):
+            exp = (-other[0], other[1])
+            mtol = 1e-9 if name == "msm" else 5e-4 if inp.get("quantum") else tol
+            if not same_fit(kind, name, exp, got, mtol):
+                out.append(("the %s fit of the sample is the mirror of the %s fit of the negated sample (%s, %s entry, both given as %s)"
+                            % ("GumbelMin" if kind == "gm" else "Gumbel", "Gumbel" if kind == "gm" else "GumbelMin", name, entry, lab),
+                            list(exp), list(got)))
     return out
 
 
@@ -232,6 +280,138 @@ def eval_history(Q, inp):
             out.append(("the object returned by step %d (%s) keeps its parameters when other samples are fitted later" % (i, name),
                         list(p), list(now)))
     return out
+
+
+def app_series(inp, a=1.0, b=0.0, sign=1.0):
+    """the time series of an application-level case: k series of n points, noise of standard deviation sigma (white or
+    5-point smoothed) around the mean level `level`*sigma; then mapped by x -> sign*(a*x+b)"""
+    from collections import OrderedDict
+    from qats import TimeSeries
+    t = np.arange(inp["n"]) * inp["dt"]
+    c = OrderedDict()
+    for i in range(inp["k"]):
+        rs = np.random.RandomState(inp["seed"] + i)
+        w = rs.normal(0.0, 1.0, inp["n"])
+        if inp.get("smooth"):
+            w = np.convolve(w, np.ones(5) / math.sqrt(5.0), mode="same")
+        x = inp["sigma"] * w + inp["level"] * inp["sigma"]
+        c["ts%d" % i] = TimeSeries("ts%d" % i, t.copy(), sign * (a * x + b))
+    return c
+
+
+W_KEYS = ("wloc", "wscale", "wshape", "gloc", "gscale")
+
+
+def eval_app(Q, inp):
+    """the application-level computations (qats.app.funcs.calculate_gumbel_fit / calculate_stats) on a container of time series:
+    the fit of the minima is the mirror image of the fit of the maxima of the negated series, the fit is the Gumbel pwm fit of
+    the sample of extremes, x -> a*x+b on every series transforms location / scale as the property says, and a second call
+    on the same container gives the same answer.  Returns [(oracle, expected, observed)]."""
+    from qats.app import funcs
+    from qats.stats import gumbel
+    twin = tuple(inp["twin"]) if inp.get("twin") else None
+    a, b = inp["a"], inp["b"]
+    out = []
+    cont, neg, aff = app_series(inp), app_series(inp, sign=-1.0), app_series(inp, a, b)
+    orig = {k: ts.x.copy() for k, ts in cont.items()}
+
+    def near(e, g, sc, tol):
+        return (math.isnan(e) and math.isnan(g)) or abs(g - e) <= tol * (abs(sc) + abs(e))
+
+    with np.errstate(all="ignore"):
+        if inp["wrapper"] == "gumbel":
+            def gfit(c, minima):
+                r = funcs.calculate_gumbel_fit(c, twin, None, minima=minima)
+                return float(r["loc"]), float(r["scale"]), np.array(r["sample"], dtype=float)
+            for minima in inp["order"]:
+                what = "minima=True" if minima else "minima=False"
+                lo, sc, smp = gfit(cont, minima)
+                ext = np.array([(ts.get(twin=twin)[1].min() if minima else ts.get(twin=twin)[1].max()) for ts in cont.values()])
+                # the fitted sample: the maxima, or the negated minima
+                want = np.sort(-ext if minima else ext)
+                if smp.shape != want.shape or not np.allclose(np.sort(smp), want, rtol=1e-12, atol=0.0):
+                    out.append(("calculate_gumbel_fit(%s): the fitted sample is the sample of %s of the series"
+                                % (what, "negated minima" if minima else "maxima"), want.tolist(), smp.tolist()))
+                el, es = (float(t) for t in gumbel.pwm(want))
+                if not (near(el, lo, es, 1e-9) and near(es, sc, es, 1e-9)):
+                    out.append(("calculate_gumbel_fit(%s): (loc, scale) is the Gumbel pwm fit of the %s" %
+                                (what, "negated minima (mirror of the minima fit)" if minima else "maxima"), [el, es], [lo, sc]))
+                # mirror through the wrapper itself: minima of x <-> maxima of -x
+                ml, ms, msmp = gfit(neg, not minima)
+                if not (near(ml, lo, ms, 1e-9) and near(ms, sc, ms, 1e-9)):
+                    out.append(("calculate_gumbel_fit(%s) of the series equals calculate_gumbel_fit(%s) of the negated series "
+                                "(minima mirror maxima)" % (what, "minima=False" if minima else "minima=True"), [ml, ms], [lo, sc]))
+                # equivariance through the wrapper (the returned parameters describe the flipped sample when minima=True)
+                ql, qs, _ = gfit(aff, minima)
+                exl, exs = (a * lo - b, a * sc) if minima else (a * lo + b, a * sc)
+                if not (near(exl, ql, exs, 1e-7) and near(exs, qs, exs, 1e-7)):
+                    out.append(("calculate_gumbel_fit(%s) of a*x+b == (a*loc%sb, a*scale)" % (what, "-" if minima else "+"),
+                                [exl, exs], [ql, qs]))
+            # the same container again: same answer, series untouched
+            first = gfit(cont, inp["order"][0])
+            again = gfit(cont, inp["order"][0])
+            if first[:2] != again[:2]:
+                out.append(("calculate_gumbel_fit called twice on the same container gives the same fit", list(first[:2]), list(again[:2])))
+        else:
+            def sfit(c, minima):
+                return funcs.calculate_stats(c, twin, None, minima=minima)
+            for minima in inp["order"]:
+                what = "minima=True" if minima else "minima=False"
+                r, m, q = sfit(cont, minima), sfit(neg, not minima), sfit(aff, minima)
+                for nm in r:
+                    pr, pm, pq = r[nm], m[nm], q[nm]
+                    got = [float(pr[k]) for k in W_KEYS]
+                    mir = [float(pm[k]) for k in W_KEYS]
+                    sc = got[1] if math.isfinite(got[1]) else 1.0
+                    # the statistics report the Weibull / Gumbel parameters of the flipped extremes for minima: identical
+                    # to those of the maxima of the negated series; samples and quantiles change sign
+                    if not all(near(e, g, sc, 1e-9) for e, g in zip(mir, got)):
+                        out.append(("calculate_stats(%s) of %s: Weibull / Gumbel parameters equal those of calculate_stats(%s) of the "
+                                    "negated series (minima mirror maxima)" % (what, nm, "minima=False" if minima else "minima=True"),
+                                    mir, got))
+                    s1, s2 = np.sort(np.asarray(pr["sample"], dtype=float)), np.sort(-np.asarray(pm["sample"], dtype=float))
+                    if s1.shape != s2.shape or not np.allclose(s1, s2, rtol=1e-12, atol=0.0):
+                        out.append(("calculate_stats(%s) of %s: the sample of extremes is the negated sample of the negated series"
+                                    % (what, nm), s2.tolist()[:6], s1.tolist()[:6]))
+                    pk = sorted(k for k in pr if k.startswith("p_"))
+                    if not all(near(-float(pm[k]), float(pr[k]), sc, 1e-9) for k in pk):
+                        out.append(("calculate_stats(%s) of %s: extreme quantiles are the negated quantiles of the negated series"
+                                    % (what, nm), [-float(pm[k]) for k in pk], [float(pr[k]) for k in pk]))
+                    # equivariance (same number of extremes on both sides, finite fits)
+                    aq = [float(pq[k]) for k in W_KEYS]
+                    if np.size(pq["sample"]) != np.size(pr["sample"]) or not all(math.isfinite(t) for t in got + aq):
+                        continue
+                    sb = -b if minima else b
+                    exp = [a * got[0] + sb, a * got[1], got[2], a * got[3] + sb, a * got[4]]
+                    lim = [1e-6 * (abs(exp[1]) + abs(exp[0])), 1e-6 * abs(exp[1]), 1e-6 * abs(exp[2]),
+                           1e-6 * (abs(exp[1]) + abs(exp[3])) * max(1.0, 1.0 / min(got[2], 1.0)), 1e-6 * abs(exp[4]) * max(1.0, 1.0 / min(got[2], 1.0))]
+                    if not all(abs(g - e) <= l for e, g, l in zip(exp, aq, lim)):
+                        out.append(("calculate_stats(%s) of a*x+b (%s): (wloc, wscale, wshape, gloc, gscale) == (a*wloc%sb, a*wscale, "
+                                    "wshape, a*gloc%sb, a*gscale)" % (what, nm, "-" if minima else "+", "-" if minima else "+"), exp, aq))
+    for k, ts in cont.items():
+        if not np.array_equal(ts.x, orig[k]):
+            out.append(("the application-level computation leaves the time series unchanged", "x of %s unchanged" % k, "modified"))
+            break
+    return out
+
+
+APP_LEVELS = [0.0, 5.0, -5.0, 60.0, -60.0, 2000.0, -2000.0, 0.0, 4.0]
+
+
+def gen_app(rng, i):
+    sigma = round(10 ** rng.uniform(-1, 2), 3)
+    n = rng.choice([200, 400, 1200])
+    dt = rng.choice([0.1, 0.5, 1.0])
+    a = rng.choice(A_POOL)
+    b = rng.choice([float(round(rng.uniform(-10, 10) * a * sigma)), float(round(100 * a * sigma)) + 1.0, -float(round(100 * a * sigma)) - 1.0])
+    twin = None if rng.random() < 0.5 else [round(0.2 * n * dt, 1), round(0.9 * n * dt, 1)]
+    wrapper = "gumbel" if i % 3 != 2 else "stats"
+    level = APP_LEVELS[i % len(APP_LEVELS)]
+    if wrapper == "stats":                  # three-parameter Weibull pwm: float error of the location ~ (mean/std)^2 eps
+        level = max(-200.0, min(200.0, level))
+    return dict(case="app", wrapper=wrapper, seed=rng.randint(0, 10 ** 6), k=rng.choice([2, 3, 6, 12]),
+                n=n, dt=dt, sigma=sigma, level=level, smooth=rng.random() < 0.5, twin=twin, a=a, b=b,
+                order=rng.choice([[True, False], [False, True], [True]]))
 
 
 def gen_history(rng, kind, info, positive):
@@ -523,7 +703,12 @@ def run(chk):
             judge(eval_container, c, "container.corpus")
         elif c.get("case") == "history":
             judge(eval_history, c, "history.corpus")
-    labs = ["int64", "int32", "int16", "list-int", "list-float", "tuple-float", "reversed-view", "strided-view"]
+        elif c.get("case") == "app":
+            judge(eval_app, c, "app.corpus")
+    chk.assumptions += ["two-dimensional samples: the estimators built on order statistics (pwm, pwm2, lse) sort along the last "
+                        "axis, so a column (n,1) is outside their domain; a layout on which an estimator raises is outside its "
+                        "domain as well (on the unchanged tree: lse and the Weibull pwm/pwm2 on every 2-D layout)"]
+    labs = ["int64", "int32", "int16", "list-int", "list-float", "tuple-float", "reversed-view", "strided-view"] + list(LAYOUTS_2D)
     for si, (kind, x, info) in enumerate(samples):
         quantum = info["scale"] / 8.0                              # integer-valued samples: x in units of scale/8 (many ties)
         v = np.round(x / quantum)
@@ -533,7 +718,8 @@ def run(chk):
                 continue
             iterative = name in ("lse", "mle")
             # all representations for the closed forms (quick and thorough); a rotating subset for the iterative ones in quick
-            use = labs if not (iterative and chk.quick) else [labs[(si + j) % 4] for j in (0, 2)] + [rng.choice(labs[4:])]
+            use = labs if not (iterative and chk.quick) else \
+                [labs[(si + j) % 4] for j in (0, 2)] + [rng.choice(labs[4:8]), LAYOUTS_2D[si % 4], LAYOUTS_2D[(si + 1 + si // 4) % 4]]
             for lab in use:
                 a = rng.choice(A_POOL + [2, 3])                    # integer a, b keep an integer array integer
                 # shift by at most ~10 scale units of the transformed sample (see above)
@@ -551,6 +737,12 @@ def run(chk):
             inp = dict(info, case="history", steps=gen_history(rng, kind, info, bool(np.all(x > 0))))
             chk.dist("history.%s.len%d" % (kind, len(inp["steps"])))
             judge(eval_history, inp, "history." + kind)
+    # ---- application-level wrappers on containers of time series (mean level zero / large positive / large negative) ------------
+    for i in range(14 if chk.quick else 90):
+        inp = gen_app(rng, i)
+        chk.dist("app.%s.level%+g" % (inp["wrapper"], inp["level"]))
+        chk.nontriv("app:%d:%g" % (inp["seed"], inp["level"]))
+        judge(eval_app, inp, "app." + inp["wrapper"])
     chk.sample(samples[0][2])
 
 
@@ -560,8 +752,8 @@ def replay(rp):
     from qats.stats.gumbel import Gumbel
     from qats.stats.gumbelmin import GumbelMin
     inp = rp["input"]
-    if inp.get("case") in ("container", "history"):
-        res = (eval_container if inp["case"] == "container" else eval_history)(qmods(), inp)
+    if inp.get("case") in ("container", "history", "app"):
+        res = dict(container=eval_container, history=eval_history, app=eval_app)[inp["case"]](qmods(), inp)
         for oracle, exp, obs in res or []:
             print("FAILS: %s\n   expected %s\n   observed %s" % (oracle, exp, obs))
         print("replay: %d failing clause(s)" % len(res or []))
